@@ -19,6 +19,8 @@ def nodupInts : List Int → Bool
   processes with GOMAXPROCS 1 and 16) → `same` / `differ`;
 * `hist <grammar B> <grammar A> <digest of B in a fresh process> <digest of B generated after A in one process>`
   → `same` / `history`;
+* `cwd <grammar> <digest> <digest>` (the same relative path and content generated from two working directories)
+  → `same` / `cwd`;
 * `shipped <grammar> <files> <differing>` (regeneration of a shipped grammar vs the committed files) →
   `match` / `mismatch`;
 * `inv remap <grammar> <values>`: hypothesis of `genReverseLookup` (values of an `ActionVars.Remap`) →
@@ -28,6 +30,7 @@ def eval : List String → Option String
   | ["site", file, func, hash, ctx] =>
     some (if (lookupSite file func hash ctx).isSome then "covered" else "uncovered")
   | "gen" :: _ :: hashes => some (if allSame hashes then "same" else "differ")
+  | ["cwd", _, d1, d2] => some (if d1 == d2 then "same" else "cwd")
   | ["hist", _, _, fresh, after] => some (if fresh == after then "same" else "history")
   | ["shipped", _, _, ndiff] => do
     let n ← parseNat? ndiff
@@ -49,6 +52,7 @@ def handle (args : List String) : Option String :=
   | "judge" :: _ :: "::" :: rest =>
     match eval rest with
     | some "differ" => some "violates: the generated files differ between runs of the same grammar"
+    | some "cwd" => some "violates: the files of a grammar depend on the working directory of the process"
     | some "history" => some "violates: the files of a grammar depend on what was generated earlier in the same process"
     | some "mismatch" => some "violates: regenerating the shipped grammar does not reproduce the committed files"
     | some _ => some "holds"
